@@ -547,10 +547,18 @@ type Layout struct {
 // Render produces text. Dropped semicolons force an LF before the next token unless that token is `}`
 // or the end (mode 2).
 func Render(toks []Tok, gap func(i int) string, semi func(i int) int) string {
+	s, _ := RenderOffs(toks, gap, semi)
+	return s
+}
+
+// RenderOffs is Render that also returns the byte offset of every token (-1 for dropped semicolons).
+func RenderOffs(toks []Tok, gap func(i int) string, semi func(i int) int) (string, []int) {
 	var b strings.Builder
+	offs := make([]int, len(toks))
 	prev := ""
 	pendingNL := false
 	for i, t := range toks {
+		offs[i] = -1
 		if t.OptSemi && semi != nil {
 			switch semi(i) {
 			case 1:
@@ -575,10 +583,11 @@ func Render(toks []Tok, gap func(i int) string, semi func(i int) int) string {
 		}
 		pendingNL = false
 		b.WriteString(g)
+		offs[i] = b.Len()
 		b.WriteString(t.Text)
 		prev = t.Text
 	}
-	return b.String()
+	return b.String(), offs
 }
 
 // Compact layout: minimal gaps, all semicolons kept.
